@@ -11,6 +11,7 @@ Arguments f64_frac_zero : simpl never.
 Arguments int_in_range : simpl never.
 Arguments pow2 : simpl never.
 Arguments unit_store : simpl never.
+Arguments delta_store : simpl never.
 Arguments unit_us : simpl never.
 Arguments str_ok : simpl never.
 Arguments Z.mul : simpl never.
@@ -59,34 +60,39 @@ Proof.
   - simpl in He. apply orb_false_iff in He as [_ Hr]. apply IH; auto. intros a b Ha. apply Hall. right. exact Ha.
 Qed.
 
+Lemma Accept_inj : forall a b, Accept a = Accept b -> a = b.
+Proof. intros a b H. injection H. trivial. Qed.
+Ltac refl_sv := match goal with |- same_val ?x ?x => apply SV_refl end.
+Ltac inj_acc := match goal with H : Accept ?x = Accept ?y |- _ => apply Accept_inj in H; subst y end.
+
 Lemma scalar_same : forall a v v',
   scalar_rt a v = Accept v' -> lossy_scalar a v = false -> same_val v v'.
 Proof.
   intros a v v' H HL.
-  destruct a as [sg bits|w| | | | | | |u tz|u|u|p sc|e|k w]; destruct v; simpl in H; try discriminate;
-    try (inversion H; subst; apply SV_refl; fail).
-  - (* AInt, VInt *) destruct (int_in_range sg bits z); inversion H. apply SV_refl.
-  - (* AInt, VFloat *) simpl in HL. apply negb_false_iff in HL.
+  destruct a as [sg bits|w| | | | | | |u tz|u|u|p sc|e|k w]; destruct v; cbn [scalar_rt] in H; try discriminate;
+    try (inj_acc; refl_sv; fail).
+  all: try (destruct w; try discriminate; try (inj_acc; refl_sv; fail)).
+  all: cbn [lossy_scalar] in HL.
+  - (* AInt, VInt *) destruct (int_in_range sg bits z); try discriminate. inj_acc. refl_sv.
+  - (* AInt, VFloat *) apply negb_false_iff in HL.
     destruct (f64_trunc bits0) as [z|] eqn:E; try discriminate.
-    destruct (int_in_range sg bits z); inversion H. subst. apply SV_float_int; auto.
-  - (* AFloat, VBool *) destruct w; inversion H; apply SV_bool_float.
-  - (* AFloat, VInt *) destruct w.
-    + destruct (Z.abs z <=? pow2 24) eqn:E; inversion H. apply SV_int_float. apply Z.leb_le in E.
-      assert (pow2 24 <= pow2 53) by (unfold pow2; apply Z.pow_le_mono_r; lia). lia.
-    + destruct (Z.abs z <=? pow2 53) eqn:E; inversion H. apply SV_int_float. apply Z.leb_le in E. exact E.
-  - (* AFloat, VFloat *) destruct w; inversion H; subst.
-    + simpl in HL. apply negb_false_iff in HL. apply N.eqb_eq in HL. rewrite HL. apply SV_refl.
-    + apply SV_refl.
-  - (* AStr, VStr *) destruct (str_ok s); inversion H. apply SV_refl.
-  - (* ADictStr, VStr *) destruct (str_ok s); inversion H. apply SV_refl.
-  - (* ADate, VDatetime *) simpl in HL. discriminate.
-  - (* ATimestamp *) simpl in HL. apply orb_false_iff in HL as [Ha Hs]. apply negb_false_iff in Ha. apply eqb_prop in Ha. subst.
+    destruct (int_in_range sg bits z); try discriminate. inj_acc. apply SV_float_int; auto.
+  - (* AFloat F32, VBool *) inj_acc. apply SV_bool_float.
+  - (* AFloat F64, VBool *) inj_acc. apply SV_bool_float.
+  - (* AFloat F32, VInt *) destruct (Z.abs z <=? pow2 24) eqn:E; try discriminate. inj_acc. apply SV_int_float.
+    apply Z.leb_le in E. assert (pow2 24 <= pow2 53) by (unfold pow2; apply Z.pow_le_mono_r; lia). lia.
+  - (* AFloat F64, VInt *) destruct (Z.abs z <=? pow2 53) eqn:E; try discriminate. inj_acc. apply SV_int_float.
+    apply Z.leb_le in E. exact E.
+  - (* AFloat F32, VFloat *) inj_acc. apply negb_false_iff in HL. apply N.eqb_eq in HL. rewrite HL. refl_sv.
+  - (* AStr, VStr *) destruct (str_ok s); try discriminate. inj_acc. refl_sv.
+  - (* ADictStr, VStr *) destruct (str_ok s); try discriminate. inj_acc. refl_sv.
+  - (* ATimestamp *) apply orb_false_iff in HL as [Ha Hs]. apply negb_false_iff in Ha. apply eqb_prop in Ha. subst.
     destruct (unit_store u us) as [us'|]; try discriminate. apply negb_false_iff in Hs. apply Z.eqb_eq in Hs. subst.
-    inversion H. apply SV_refl.
-  - (* ATime *) simpl in HL. destruct u; inversion H; try apply SV_refl;
-      apply negb_false_iff in HL; apply Z.eqb_eq in HL; rewrite HL; apply SV_refl.
-  - (* ADuration *) simpl in HL. destruct (unit_store u us) as [us'|]; try discriminate.
-    apply negb_false_iff in HL. apply Z.eqb_eq in HL. subst. inversion H. apply SV_refl.
+    inj_acc. refl_sv.
+  - (* ATime *) destruct u; inj_acc; try refl_sv;
+      apply negb_false_iff in HL; apply Z.eqb_eq in HL; rewrite HL; refl_sv.
+  - (* ADuration *) destruct (delta_store u us) as [us'|]; try discriminate.
+    apply negb_false_iff in HL. apply Z.eqb_eq in HL. subst. inj_acc. refl_sv.
 Qed.
 
 Lemma pair_same : forall (fk fv : value -> outcome) (gk gv : value -> bool) it y,
@@ -102,7 +108,7 @@ Proof.
   apply orb_false_iff in HL as [La Lb].
   destruct (fk a) as [a'| |] eqn:Ea.
   - destruct (fv b) as [b'| |] eqn:Eb.
-    + destruct a'; inversion H; subst; apply SV_pair; eauto.
+    + destruct a'; try discriminate; inj_acc; apply SV_pair; eauto.
     + destruct a'; discriminate.
     + destruct a'; discriminate.
   - destruct (fv b); discriminate.
@@ -115,18 +121,21 @@ Lemma arrow_rt_same : forall a v v',
 Proof.
   induction a as [sg bits|w| | | | | | |u tz|u|u|p sc|e IHe|k IHk w IHw]; intros v v' H HL;
     try (apply (scalar_same _ _ _ H HL); fail).
-  - (* AList *) simpl in H, HL. destruct v; try discriminate; try (inversion H; apply SV_refl).
+  - (* AList *) simpl in H, HL. destruct v; try discriminate; try (inj_acc; refl_sv).
     + apply list_outcome_Forall2 in H as [l' [-> HF]]. apply SV_list.
-      eapply Forall2_same; eauto. intros x y _ Hx Hg. eapply IHe; eauto.
+      eapply (Forall2_same (arrow_rt e) (lossy e)); [ | exact HF | exact HL ]; intros x y _ Hx Hg; eapply IHe; eauto.
     + apply list_outcome_Forall2 in H as [l' [-> HF]]. apply SV_tuple.
-      eapply Forall2_same; eauto. intros x y _ Hx Hg. eapply IHe; eauto.
-  - (* AMap *) simpl in H, HL. destruct v; try discriminate; try (inversion H; apply SV_refl).
+      eapply (Forall2_same (arrow_rt e) (lossy e)); [ | exact HF | exact HL ]; intros x y _ Hx Hg; eapply IHe; eauto.
+  - (* AMap *) simpl in H, HL. destruct v; try discriminate; try (inj_acc; refl_sv).
     + apply list_outcome_Forall2 in H as [l' [-> HF]]. apply SV_list.
-      eapply Forall2_same; eauto. intros x y _ Hx Hg. eapply pair_same; eauto.
+      eapply (Forall2_same (pair_outcome (arrow_rt k) (arrow_rt w)) (fun it => match it with VTuple [x; y] => lossy k x || lossy w y | _ => false end)); [ | exact HF | exact HL ];
+      intros x y _ Hx Hg; eapply (pair_same (arrow_rt k) (arrow_rt w) (lossy k) (lossy w)); eauto.
     + apply list_outcome_Forall2 in H as [l' [-> HF]]. apply SV_tuple.
-      eapply Forall2_same; eauto. intros x y _ Hx Hg. eapply pair_same; eauto.
+      eapply (Forall2_same (pair_outcome (arrow_rt k) (arrow_rt w)) (fun it => match it with VTuple [x; y] => lossy k x || lossy w y | _ => false end)); [ | exact HF | exact HL ];
+      intros x y _ Hx Hg; eapply (pair_same (arrow_rt k) (arrow_rt w) (lossy k) (lossy w)); eauto.
     + apply list_outcome_Forall2 in H as [l' [-> HF]]. apply SV_dict.
-      eapply Forall2_same; eauto. intros x y _ Hx Hg. eapply pair_same; eauto.
+      eapply (Forall2_same (pair_outcome (arrow_rt k) (arrow_rt w)) (fun it => match it with VTuple [x; y] => lossy k x || lossy w y | _ => false end)); [ | exact HF | exact HL ];
+      intros x y _ Hx Hg; eapply (pair_same (arrow_rt k) (arrow_rt w) (lossy k) (lossy w)); eauto.
 Qed.
 
 (* lifted to the parameter / result path of plain annotations (no framework conversion on the way back) *)
